@@ -86,7 +86,7 @@ def rRes : Res Command → String
 
 def rToken : Token → String
   | .word w => "W" ++ hx w
-  | .number r => "N" ++ hx r
+  | .number r => "N" ++ hex16 (tokNumberBits r)
   | .str s => "S" ++ hx s
   | .sym c => "Y" ++ hx [c]
   | .lbrace => "{" | .rbrace => "}" | .semi => ";" | .lbrack => "[" | .rbrack => "]"
